@@ -297,7 +297,7 @@ LatQuick ==
 LatSeqQuick ==
   [dims |-> <<1, 2>>, modes |-> <<TRUE, FALSE>>, tun |-> <<TunOne, TunTenth>>,
    nsteps |-> <<2>>,
-   stacks |-> << <<<<>>, <<1>>, <<1, 2>>>>, <<<<>>, <<2>>, <<2, 1>>>> >>,
+   stacks |-> << <<<<>>, <<1>>, <<1, 2>>>>, <<<<>>, <<1>>, <<2>>, <<2, 1>>>> >>,
    F |-> << <<M1(2)>>,              <<M2(1, 1, 0, 1), M2(0, -1, 2, 0)>> >>,
    Q |-> << <<M1(1)>>,              <<D2(1, 4)>> >>,
    X |-> << <<<<3>>>>,              <<<<1, -2>>>> >>,
